@@ -63,3 +63,19 @@ def facts(repo, f, H):
     body = H.strip_comments(H.func_body(repo, "banyand/measure/query.go", r"func \(sr \*segResult\) remove\(i int\) \{"))
     f["segResultRemoveShape"] = ("return" not in body) and bool(re.search(
         r"if sr\.sortedValues != nil \{\s+sr\.sortedValues = append\(sr\.sortedValues\[:i\], sr\.sortedValues\[i\+1:\]\.\.\.\)", body))
+
+    # idxResult.loadSortingData: min and max of the window are updated independently
+    body = H.strip_comments(H.func_body(repo, "banyand/stream/query_by_idx.go", r"func \(qr \*idxResult\) loadSortingData\("))
+    f["idxWindowShape"] = bool(re.search(
+        r"if val\.Timestamp > qo\.maxTimestamp \{\s+qo\.maxTimestamp = val\.Timestamp\s+\}\s+"
+        r"if val\.Timestamp < qo\.minTimestamp \|\| qo\.minTimestamp == 0 \{\s+qo\.minTimestamp = val\.Timestamp\s+\}", body))
+    # distributed plans: per-node limit = (limit or default) + offset
+    f["traceDefaultLimit"] = H.const(repo, "pkg/query/logical/trace/trace_analyzer.go", "defaultLimit")
+    f["measureDefaultLimit"] = H.const(repo, "pkg/query/logical/measure/measure_analyzer.go", "defaultLimit")
+    ok = True
+    for rel, sig, off in (("pkg/query/logical/trace/trace_plan_distributed.go", r"func \(t \*unresolvedTraceDistributed\) Analyze\(", r"t\.originalQuery\.Offset"),
+                          ("pkg/query/logical/measure/measure_plan_distributed.go", r"func \(ud \*unresolvedDistributed\) Analyze\(", r"ud\.originalQuery\.Offset")):
+        body = H.strip_comments(H.func_body(repo, rel, sig))
+        ok = ok and bool(re.search(r"limit := \w+\.originalQuery\.GetLimit\(\)\s+if limit == 0 \{\s+limit = defaultLimit\s+\}", body))
+        ok = ok and bool(re.search(r"Limit:\s+limit \+ " + off + ",", body))
+    f["pushDownLimitShape"] = ok
